@@ -63,6 +63,17 @@ class Ctx(object):
             return None
 
 
+_FACTS_CACHE = {}
+
+
+def _facts(d, crates):
+    """one Facts object per (facts dir, crate set) and process: batch runs (`check ALL`) share it"""
+    k = (d, tuple(crates))
+    if k not in _FACTS_CACHE:
+        _FACTS_CACHE[k] = core.Facts(d, crates=crates)
+    return _FACTS_CACHE[k]
+
+
 def load_known():
     if not os.path.exists(KNOWN):
         return []
@@ -107,7 +118,7 @@ def run_property(prop, tier="quick", replay=None):
     try:
         d, info = extract.ensure_facts("full")
         crates = getattr(mod, "CRATES", ("d_engine_core", "d_engine_server", "d_engine_client", "d_engine"))
-        F = core.Facts(d, crates=crates)
+        F = _facts(d, crates)
         okc, detail = F.completeness()
         ctx = Ctx(prop, tier, F, info)
         if not okc:
@@ -260,4 +271,12 @@ def main(argv):
             i += 1
     if tier not in ("quick", "thorough"):
         tier = "quick"
+    if prop == "ALL" or "," in prop:
+        import glob
+        props = sorted(os.path.basename(p)[:-3].upper() for p in glob.glob(os.path.join(VERIF, "engine", "raftlint", "rules", "c[0-9][0-9].py"))) \
+            if prop == "ALL" else [x for x in prop.split(",") if x]
+        rc = 0
+        for p in props:
+            rc = max(rc, run_property(p, tier, replay))
+        return rc
     return run_property(prop, tier, replay)
